@@ -29,6 +29,26 @@ class ModuleInfo(object):
         self.lines = self.src.split('\n')
 
 
+JS_DIR = os.path.join(REPO, 'rbql-js')
+JS_MODULES = {'js_csv_utils': 'csv_utils.js', 'js_rbql': 'rbql.js'}      # module name in contracts -> file under rbql-js (translated by pyvc/jsfront.py)
+
+
+class JSModuleInfo(ModuleInfo):
+    """a JavaScript file seen through the mechanical translation of pyvc/jsfront.py; line numbers are those of the .js file"""
+
+    def __init__(self, name, path):
+        from . import jsfront
+        self.name = name
+        self.path = path
+        self.src = open(path).read()
+        self.tree, self.skipped = jsfront.translate_file(path, name)
+        self.functions = {}
+        self.classes = {}
+        self.constants = {}
+        self.imports = {'re': 're'}
+        self.lines = self.src.split('\n')
+
+
 class Program(object):
     def __init__(self, py_dir=None):
         self.py_dir = py_dir or PY_DIR
@@ -36,13 +56,21 @@ class Program(object):
         self.functions = {}     # qualname -> (ModuleInfo, node, parent qualname)
         self.classes = {}       # qualname -> (ModuleInfo, node)
         self._cids = {}
+        self.js_errors = {}
         for m in MODULES:
             p = os.path.join(self.py_dir, m + '.py')
             if os.path.exists(p):
                 self._load(m, p)
+        for m, fn in JS_MODULES.items():
+            p = os.path.join(JS_DIR, fn)
+            if os.path.exists(p):
+                try:
+                    self._load(m, p, js=True)
+                except Exception as e:
+                    self.js_errors[m] = '%s: %s' % (type(e).__name__, e)
 
-    def _load(self, name, path):
-        mi = ModuleInfo(name, path)
+    def _load(self, name, path, js=False):
+        mi = JSModuleInfo(name, path) if js else ModuleInfo(name, path)
         self.modules[name] = mi
         for node in mi.tree.body:
             if isinstance(node, (ast.Import,)):
